@@ -26,3 +26,38 @@ func init() {
 		return err != nil || out.String() != want, fmt.Sprintf("output %q, error %v; the whole program prints %q", out.String(), err, want)
 	}})
 }
+
+// verifEvalSeq feeds the pieces to one interpreter and returns everything printed and the first error.
+func verifEvalSeq(pieces ...string) (out string, err error) {
+	var buf bytes.Buffer
+	i := New(Options{Stdout: &buf, Stderr: &buf})
+	if e := i.Use(stdlib.Symbols); e != nil {
+		return "", e
+	}
+	defer func() {
+		if r := recover(); r != nil {
+			err = fmt.Errorf("Eval panicked: %v", r)
+		}
+	}()
+	for _, p := range pieces {
+		if _, e := i.Eval(p); e != nil && err == nil {
+			err = fmt.Errorf("piece %q: %v", p, e)
+		}
+	}
+	return buf.String(), err
+}
+
+func init() {
+	seq := func(want string, pieces ...string) func() (bool, string) {
+		return func() (bool, string) {
+			out, err := verifEvalSeq(pieces...)
+			return out != want || err != nil, fmt.Sprintf("pieces %q print %q (err %v); evaluated in one piece the program prints %q", pieces, out, err, want)
+		}
+	}
+	verifProtocolScenarios = append(verifProtocolScenarios,
+		verifScenario{"C11/interp.Interpreter.CompileAST/if:mainID/*", seq("m\n1\n", "package main\nfunc main() { println(\"m\") }", "x := 1", "println(x)")},
+		verifScenario{"C11/interp.Interpreter.cfg/if:defineStmt#2/*", seq("1\n", "x := 1", "if true { x := 2; _ = x }", "println(x)")},
+		verifScenario{"C11/interp.Interpreter.gta/case:defineXStmt/*", seq("1 true\n", "m := map[string]int{\"a\": 1}", "v, ok := m[\"a\"]", "println(v, ok)")},
+		verifScenario{"C15/interp.genGlobalVarDecl/inv-step:loop5.all-seen-batch-members-inited", seq("1 2\n", "var a = 1", "var b = a + 1", "println(a, b)")},
+	)
+}
